@@ -3,6 +3,7 @@ import Rare.Props.C10
 import Rare.Proofs.C09Utf8Char
 import Rare.Proofs.C09FuelStd
 import Rare.Proofs.C09Frag
+import Rare.Proofs.C09FragW
 import Rare.Proofs.C09Lookup
 import Rare.Proofs.C09Gen
 import Rare.Proofs.C09Err
@@ -208,6 +209,78 @@ theorem fragment_complement :
        "format", "json", "ln", "load", "log10", "log2", "pow", "time", "timeattr", "timeformat"] ∧
     Gen.stdFunctionNames.length = 85 ∧ fragNames.length = 65 ∧ fragNames.Nodup := by
   refine ⟨by decide +kernel, by decide +kernel, by decide +kernel, by decide +kernel⟩
+
+/-! ### round 4c: the world-relative fragment (format, binders, time helpers) -/
+
+/-- **Print/compile over the WORLD-RELATIVE fragment of the standard table** (`Spec/C09FragW.lean`): the 65
+    value-level names of `print_compile_std_fragment` and `format`, the binders `@map @filter @reduce @for`,
+    `duration`, `durationformat`, `timeformat`, `timeattr` (UTC) – 74 of the 85 names of the real table
+    (`fragment_world_names`, `fragment_world_complement`).
+
+    The world `w` answers what a template cannot say: `unicode.IsPrint` (`%q` of `format`), the time world, the
+    value of a library call beyond the model of C18; the only assumption (`w.Ok`) is that such a call returns a
+    value without touching the match context.  The function table is `stdTable` + `format` + the time helpers of
+    that world (`stdTableW`).  `evalW w` is the tree semantics WITH BINDERS (`evalD`): a call hands the
+    DENOTATIONS of its arguments to the meaning of its name, so the body of `@map` / `@filter` (`{0}` = the
+    element), of `@reduce` (`{0}` = accumulator, `{1}` = element) and of `@for` (`{0}` = value, `{1}` = round) is
+    evaluated in `bindCtx` – keys and negative indices still come from the enclosing context – at every nesting
+    depth ("braces nest", for braces that bind).  Any tree of the widened fragment (`fragOkW`), printed in ANY
+    admissible style (white space, quoting), optimiser on or off, compiles without error and evaluates in every
+    context to exactly what the tree dictates. -/
+theorem print_compile_std_fragment_world (w : FragWorld) (hw : w.Ok) (known : List String) (opt : Bool) (σ : Style)
+    (e : C09.Expr) (ha : AdmissibleTop e) (hf : fragOkW w e = true) :
+    ∃ stages, compile (stdRegistryW w known) opt (printTop σ e) = .ok (stages, []) ∧
+      ∀ ctx, (buildKey stages).run ctx = .ok (evalW w e ctx) :=
+  printTop_std_fragment_world w hw known opt σ e ha hf
+
+/-- **The binder-free special case is the old semantics**: on trees that only call the 65 value-level names
+    (`valueLevel`) the semantics with binders is `evalTree` under `stdSem` – the value
+    `print_compile_std_fragment` speaks about – in every world. -/
+theorem world_semantics_extends (w : FragWorld) (ctx : Ctx) (e : C09.Expr) (h : valueLevel e = true) :
+    evalW w e ctx = evalTree (envOf ctx stdSem) e :=
+  evalW_value_level w ctx e h
+
+/-- **What the binders mean**, as equations of `evalW` (any world, any argument trees): the helpers of C17's
+    specification (`elems`, `pack`, `reduce`, `iterateWhile`) applied to the body's denotation in `bindCtx`. -/
+theorem binder_semantics (w : FragWorld) (ctx : Ctx) (arr body init start cond next : C09.Expr) :
+    evalW w (.call "@map".toList [arr, body]) ctx =
+      Rare.C17.pack ((Rare.C17.elems (evalW w arr ctx)).map fun x => evalW w body (bindCtx ctx x [])) ∧
+    evalW w (.call "@filter".toList [arr, body]) ctx =
+      Rare.C17.pack ((Rare.C17.elems (evalW w arr ctx)).filter fun x => truthy (evalW w body (bindCtx ctx x []))) ∧
+    evalW w (.call "@reduce".toList [arr, body, init]) ctx =
+      Rare.C17.reduce (fun m x => evalW w body (bindCtx ctx m x)) (evalW w init ctx) (Rare.C17.elems (evalW w arr ctx)) ∧
+    evalW w (.call "@for".toList [start, cond, next]) ctx =
+      (match Rare.C17.iterateWhile (fun v k => truthy (evalW w cond (bindCtx ctx v (itoa (k : Nat)))))
+          (fun v k => evalW w next (bindCtx ctx v (itoa (k : Nat)))) Gen.maxIterations 0 (evalW w start ctx) with
+       | some ys => Rare.C17.pack ys
+       | none => Funcs.Range.InfMarker) := by
+  refine ⟨?_, ?_, ?_, ?_⟩
+  · rw [evalW_call w _ _ FW.mapE rfl]; rfl
+  · rw [evalW_call w _ _ FW.filterE rfl]; rfl
+  · rw [evalW_call w _ _ FW.reduceE rfl]; rfl
+  · rw [evalW_call w _ _ FW.forE rfl]; rfl
+
+/-- The widened fragment, by name: 74 distinct names of the real function table (`Gen.stdFunctionNames`,
+    regenerated from `/repo`), the same in every world; each entry's builder is literally the one the world's
+    table (`stdTableW`) registers under that name. -/
+theorem fragment_world_names (w : FragWorld) (hw : w.Ok) :
+    (fragTableW w).map (·.1) = fragNamesW ∧ fragNamesW.length = 74 ∧ fragNamesW.Nodup ∧
+    (∀ n ∈ fragNamesW, n ∈ Gen.stdFunctionNames) ∧
+    (∀ p ∈ fragTableW w, lookupTable (stdTableW w) p.1 = some p.2.builder) := by
+  refine ⟨?_, by decide +kernel, by decide +kernel, by decide +kernel, fun p hp => (fragTableW_ok w hw p hp).2⟩
+  simp only [fragTableW, fragTableNew, List.map_append, List.map_map, fragNamesW, fragNames]
+  rfl
+
+/-- **The complement, by name**, after widening: 11 names.  `!` parses its arguments with the `sifter` grammar
+    of C19 instead of compiling them; `ln log10 log2 pow` are libm-backed; `time` and `buckettime` ask
+    `dateparse` for a layout (a per-stage cache cell, C18) or the wall clock (`now`, `live`, `delta`); `json`
+    (gjson paths), `load` (file system), `bar` / `color` (terminal state) are C08's `Funcs.Extra` world.  Named
+    time zones of `timeformat` / `timeattr` are outside too (side condition `utcName`): they are questions to the
+    zone database.  A name added to or removed from rare's table breaks this theorem. -/
+theorem fragment_world_complement :
+    Gen.stdFunctionNames.filter (fun n => !fragNamesW.contains n) =
+      ["!", "bar", "buckettime", "color", "json", "ln", "load", "log10", "log2", "pow", "time"] := by
+  decide +kernel
 
 /-- The round trip for registries of syntactically pure builders (`pureBuilder`, the harness's probe
     registry) with the optimiser off – the statement proved before the composition with C10; now a
@@ -829,5 +902,58 @@ example : synErrs splitArgs (fun n => n == ['f']) "a{}b{nofn x}c{ }{".toList =
     stmts "a{}b{nofn x}c{ }{".toList = [⟨1, 2, []⟩, ⟨4, 11, "nofn x".toList⟩, ⟨13, 15, [' ']⟩] ∧
     openStart "a{}b{nofn x}c{ }{".toList = some 16 := by
   decide +kernel
+
+/-! ### examples for the world-relative fragment -/
+
+/-- A world for the examples: every non-ASCII rune printable, no zone database, no `dateparse`, library calls
+    beyond the model answer the empty string. -/
+def sampleWorld : FragWorld :=
+  ⟨fun _ => true,
+   { loadOk := fun _ => none, zones := fun _ => [], lookup := fun _ _ => .panic "no zone database",
+     detect := fun _ => .ret none, parseAny := fun _ _ => .ret none,
+     nowBuild := .ret [], nowLive := .ret [], nowDelta := .ret [], lib := fun _ => .ret [] },
+   fun _ => []⟩
+
+example : sampleWorld.Ok := fun _ => rfl
+
+/-- `{@map {@split {1} ","} {format "%s=%q" {0} {@reduce {@split {0} " "} {sumi {0} {1}} "0"}}}`: a binder inside a
+    binder, `format` and a literal initial value – inside the widened fragment in every style. -/
+def worldTree : C09.Expr :=
+  .call "@map".toList [.call "@split".toList [.group 1, .lit ",".toList],
+    .call "format".toList [.lit "%s=%q".toList, .group 0,
+      .call "@reduce".toList [.call "@split".toList [.group 0, .lit " ".toList],
+        .call "sumi".toList [.group 0, .group 1], .lit "0".toList]]]
+
+example : fragOkW sampleWorld worldTree = true ∧ AdmissibleTop worldTree :=
+  ⟨by decide +kernel, by simp only [AdmissibleTop, worldTree, Admissible, AdmissibleArgs]; decide⟩
+
+/-- **Shadowing**: inside the body `{0}` is the ELEMENT, not the caller's group 0.  With group 0 = `7`, group 1 =
+    `1 2,30` the tree above is `1 2="3"`, NUL, `30="30"` – no `7` anywhere. -/
+example : evalW sampleWorld worldTree ⟨fun i => if i = 0 then ascii "7" else if i = 1 then ascii "1 2,30" else [], fun _ => []⟩ =
+    ascii "1 2=\"3\"" ++ [0] ++ ascii "30=\"30\"" := by decide +kernel
+
+/-- Keys and negative indices inside a body are the enclosing context's; `{2}` and above are empty. -/
+example : evalW sampleWorld (.call "@map".toList [.group 0, .call "$".toList [.group 0, .group 2, .key "k".toList]])
+    ⟨fun i => if i = 0 then [97, 0, 98] else ascii "outer", fun _ => ascii "K"⟩ =
+    [97, 0, 0, 75, 0, 98, 0, 0, 75] := by decide +kernel
+
+/-- Just outside: a NON-literal initial value of `@reduce` (rare reads it as `""` without an error – the value is
+    not the fold from that value), a named zone, a non-ASCII layout, an unknown attribute, `time`. -/
+example : fragOkW sampleWorld (.call "@reduce".toList [.group 0, .call "sumi".toList [.group 0, .group 1], .group 1]) = false ∧
+    fragOkW sampleWorld (.call "timeformat".toList [.group 0, .lit "DAY".toList, .lit "Europe/Berlin".toList]) = false ∧
+    fragOkW sampleWorld (.call "timeformat".toList [.group 0, .lit "é".toList]) = false ∧
+    fragOkW sampleWorld (.call "timeattr".toList [.group 0, .lit "month".toList]) = false ∧
+    fragOkW sampleWorld (.call "time".toList [.group 0]) = false ∧
+    fragOkW sampleWorld (.call "timeformat".toList [.group 0, .lit "DAY".toList, .lit "uTc".toList]) = true ∧
+    fragOkW sampleWorld (.call "timeattr".toList [.group 0, .lit "YearWeek".toList]) = true := by
+  refine ⟨?_, ?_, ?_, ?_, ?_, ?_, ?_⟩ <;> decide +kernel
+
+/-- `{timeformat 1700000000 "2006-01-02 15:04:05 Mon MST"}` = `2023-11-14 22:13:20 Tue UTC`; `{timeattr … yearweek}`
+    = `2023-46`; `{durationformat {duration 1h1m1s}}` = `1h1m1s`. -/
+example : evalW sampleWorld (.call "timeformat".toList [.lit "1700000000".toList, .lit "2006-01-02 15:04:05 Mon MST".toList]) emptyCtx =
+      ascii "2023-11-14 22:13:20 Tue UTC" ∧
+    evalW sampleWorld (.call "timeattr".toList [.lit "1700000000".toList, .lit "yearweek".toList]) emptyCtx = ascii "2023-46" ∧
+    evalW sampleWorld (.call "durationformat".toList [.call "duration".toList [.lit "1h1m1s".toList]]) emptyCtx = ascii "1h1m1s" := by
+  refine ⟨?_, ?_, ?_⟩ <;> decide +kernel
 
 end Rare.C09
